@@ -167,22 +167,53 @@ def r_masks(ctx, model):
     p = Proxy(ctx, {"x"})
     p.cur = "x"
     # gap masks: reuse C02's evaluation, keep only the mask instances
-    class MaskOnly(Proxy):
-        def check(self, cond, instance, *a, **k):
-            if "T=0" in instance:
-                return self.ctx.check(cond, instance, *a, **k)
-            return cond
-    C02.r_gap(MaskOnly(ctx, {"x"}), model)
+    px = Reuse(ctx, lambda lab: "T=0" in lab or "T = 0" in lab or "t0mask" in lab, minimum=1)
+    C02.r_gap(px, model)
+    px.done("C02.r_gap")
+
+
+class Reuse(Proxy):
+    """run another property's rule function under the current rule of this property, keeping the instances whose label
+    satisfies `keep` (all of them by default).  Violations raised by the reused rule are kept too.  `done()` fails closed
+    when fewer than `minimum` instances were kept (a label changed: the reuse would otherwise pass vacuously)."""
+
+    def __init__(self, ctx, keep=None, minimum=1):
+        super().__init__(ctx, set())
+        self.keep, self.minimum, self.kept = keep, minimum, 0
+
+    def _wanted(self, label):
+        return self.keep is None or bool(self.keep(label or ""))
+
+    def ok(self, instance, *a, **k):
+        if self._wanted(instance):
+            self.kept += 1
+            self.ctx.ok(instance, *a, **k)
+
+    def violation(self, key, *a, **k):
+        label = k.get("instance") or key
+        if self._wanted(label) or self._wanted(key):
+            self.kept += 1
+            self.ctx.violation(key, *a, **k)
+
+    def check(self, cond, instance, *a, **k):
+        if self._wanted(instance):
+            self.kept += 1
+            return self.ctx.check(cond, instance, *a, **k)
+        return cond
+
+    def floor(self, *a, **k):
+        return None
+
+    def done(self, what):
+        if self.kept < self.minimum:
+            raise AnalysisError(f"reused rule {what}: {self.kept} instance(s) matched the label filter (expected at least {self.minimum})")
 
 
 def r_dispatch(ctx, model):
-    class Only(Proxy):
-        def check(self, cond, instance, *a, **k):
-            if "every non-acoustic" in instance or "dispatched" in instance:
-                return self.ctx.check(cond, instance, *a, **k)
-            return cond
-    C11.r_loop(Only(ctx, {"x"}), model)
-    C11.r_dispatch(Only(ctx, {"x"}), model)
+    px = Reuse(ctx, lambda lab: "every non-acoustic" in lab or "dispatched" in lab or lab.startswith("loop."), minimum=2)
+    C11.r_loop(px, model)
+    C11.r_dispatch(px, model)
+    px.done("C11.r_loop / C11.r_dispatch")
 
 
 def r_arity(ctx, model):
@@ -211,12 +242,9 @@ def r_arity(ctx, model):
 
 
 def r_gamma_store(ctx, model):
-    class Only(Proxy):
-        def check(self, cond, instance, *a, **k):
-            if instance.startswith("Gamma mask"):
-                return self.ctx.check(cond, instance, *a, **k)
-            return cond
-    C01.r_average(Only(ctx, {"x"}), model)
+    px = Reuse(ctx, lambda lab: "Gamma" in lab or "average_over_modes" in lab)
+    C01.r_average(px, model)
+    px.done("C01.r_average")
 
 
 def r_wellformed(ctx, model):
